@@ -160,6 +160,18 @@ class WT:
         if op == 'Pow' and b == ('const', 2):
             ra = to_rat(a)
             return from_rat(ra * ra)
+        if op in ('Pow', 'FloorDiv', 'Mod', 'LShift') and a[0] == 'const' and b[0] == 'const' and all(
+                isinstance(x[1], int) and not isinstance(x[1], bool) for x in (a, b)):
+            # integer constants are folded: 2 ** 20 is 1048576
+            try:
+                if op == 'Pow' and 0 <= b[1] <= 64:
+                    return ('const', a[1] ** b[1])
+                if op == 'LShift' and 0 <= b[1] <= 64:
+                    return ('const', a[1] << b[1])
+                if op in ('FloorDiv', 'Mod') and b[1] != 0:
+                    return ('const', a[1] // b[1] if op == 'FloorDiv' else a[1] % b[1])
+            except Exception:      # noqa
+                pass
         return ('bin', op, a, b)
 
     def e_UnaryOp(self, f, e, env, depth):
